@@ -43,9 +43,35 @@ def public_constants():
     grab("inactivityExitTime", lambda: _fr(bot.INACTIVITY_EXIT_TIME))
     grab("weightRejectionThreshold", lambda: _fr(regression.WEIGHT_REJECTION_THRESHOLD))
     grab("waitSleepTime", lambda: _fr(wait_for_user.WaitForUserRhythm.sleep_time))
+    grab("cliDefaults", cli_defaults)
     grab("calls", lambda: {n: getattr(calls, n) for n in
                            ["LOOK_TO", "GO", "BOB", "SINGLE", "THATS_ALL", "ROUNDS", "STAND"]})
     return out
+
+
+def cli_defaults():
+    """The defaults of the console options as the running parser has them (read off the parser object that
+    `console_main` builds, by option string)."""
+    import argparse
+    from harness import climain
+    from harness.extract import CLI_DEFAULT_OPTS
+    seen = {}
+    real = argparse.ArgumentParser.parse_args
+
+    def spy(self, *a, **k):
+        for act in self._actions:
+            for o in act.option_strings:
+                if o in CLI_DEFAULT_OPTS:
+                    seen[o] = act.default
+        return real(self, *a, **k)
+    argparse.ArgumentParser.parse_args = spy
+    try:
+        climain.run(["763451928", "--url", "http://fake-rr", "-p", "6:x16"])
+    finally:
+        argparse.ArgumentParser.parse_args = real
+    if set(seen) != set(CLI_DEFAULT_OPTS):
+        raise ValueError(f"options not found on the parser: {sorted(set(CLI_DEFAULT_OPTS) - set(seen))}")
+    return {k: (_fr(v) if isinstance(v, float) else v) for k, v in seen.items()}
 
 
 def _mini_session(gen_spec, up_down_in, end=1012.0):
